@@ -84,10 +84,18 @@ def context(rng, idents):
     return bytes([112]) + struct.pack(">I", len(body) + 4) + body
 
 
+DIFFERENT = set()
+
+
 def oracle(case, impl):
     if impl.startswith(("PANIC", "CRASH", "TIMEOUT")):
         return ("violation", "did not return: " + impl[:60])
     t = case.split()
+    if t[0] == "cmp" and case in DIFFERENT:
+        d = dict(p.split("=") for p in impl.split())
+        if d["o"] == "eq" or d["b"] == "eq" or d["eq"] == "t":
+            return ("violation", "two identifiers that differ in a logical field are taken for the same: " + impl)
+        return None
     if t[0] == "cmp":
         d = dict(p.split("=") for p in impl.split())
         if not (d["o"] == "eq" and d["b"] == "eq" and d["eq"] == "t" and d["heq"] == "t"):
@@ -132,6 +140,18 @@ def run(ctx):
         other = t_plain + " " + (h2 + "6a" if rng.random() < 0.5 else "-")
         ocases.append("cmp %s | %s" % (t_loc, other))
         ocases.append("cmp t 2 %s i 1 | t 2 %s i 1" % (t_loc, other))
+
+    # ... and identifiers that differ in one logical field (a serial, a creation, one word of a reference; the creator pid of
+    # a fun) are told apart, bare and inside a tuple
+    for g in termgen.sibling_groups():
+        if g[0][0] not in ("p", "o", "r", "u"):
+            continue
+        for i in range(len(g)):
+            for j in range(len(g)):
+                if i != j and (g[i][0] != "u" or g[i][:8] + g[i][9:] == g[j][:8] + g[j][9:]):   # funs: only the creator pid differs
+                    for c in ("cmp %s | %s" % (etf.show(g[i]), etf.show(g[j])), "cmp t 2 %s i 1 | t 2 %s i 1" % (etf.show(g[i]), etf.show(g[j]))):
+                        DIFFERENT.add(c)
+                        ocases.append(c)
 
     # identifiers received on a connection that uses distribution headers: decoded with the connection's atom cache
     # (empty, filled by an earlier message, filled by this very message) they keep their node-local form
